@@ -167,3 +167,133 @@ Example C10_example_zero :
   = Some ([0], [0]).
 Proof. vm_compute. reflexivity. Qed.
 Print Assumptions C10_example_zero.
+
+(* ======================================================================================================== *)
+(* Tree level: recursive_truncation.py and svd_truncation.py as programs over the symbolic store
+   (model TTN/TruncTree.v, proofs TTN/TruncTreeProofs.v).  `kd c` is the number of singular values kept on
+   the bond above node c (kernel data, an arbitrary input here); `rid` stands for the uuid-named
+   temporaries, `tmp j c n` for the bond-named ones of recursive_truncation.  `trunc_hyps` is the executable
+   hypothesis checker (store invariant wfb, rid and the bond-named temporaries are not identifiers of the tree);
+   `tmp_inj`: the temporaries of different bonds / roles differ.  `view s k` = (parent of k, dimension of the
+   bond above k), `bond_dim s k` reads that dimension off the raw tensor and leg permutation. *)
+Local Close Scope Q_scope.
+From PTN Require Import TTN.Store TTN.Canon TTN.Inv TTN.CanonTree TTN.TruncTree TTN.TruncTreeProofs.
+
+(* (a) recursive_truncation: the result satisfies the invariant again, has the same identifiers, parents and
+   children sets, the same root; every temporary identifier is gone; the recorded centre is the root *)
+Theorem C10_rec_structure : forall (tmp : tmpids) (kd : id -> nat) (rid : id) (cs cs' : cstore),
+  trunc_hyps tmp rid cs = true -> tmp_inj tmp -> recursive_truncation tmp kd rid cs = Some cs' ->
+  trunc_hyps tmp rid cs' = true /\ same_tree (nodes (fst cs)) (nodes (fst cs')) /\
+  root (fst cs') = root (fst cs) /\ snd cs' = root (fst cs).
+Proof. exact rec_structure. Qed.
+Print Assumptions C10_rec_structure.
+
+(* (b) every (child, parent) bond ends with exactly the supplied dimension *)
+Theorem C10_rec_bonds : forall (tmp : tmpids) (kd : id -> nat) (rid : id) (cs cs' : cstore),
+  trunc_hyps tmp rid cs = true -> tmp_inj tmp -> recursive_truncation tmp kd rid cs = Some cs' ->
+  forall k nk q, aget k (nodes (fst cs)) = Some nk -> parent nk = Some q -> bond_dim (fst cs') k = kd k.
+Proof. exact rec_bonds. Qed.
+Print Assumptions C10_rec_bonds.
+
+(* ... hence within [1, max_bond_dim] when the dimensions are what the scalar rule keeps of non-empty
+   descending spectra (C10_trunc_prefix) *)
+Theorem C10_rec_bonds_select : forall (tmp : tmpids) (p : params) (spectra : id -> list Q) (rid : id) (cs cs' : cstore),
+  trunc_hyps tmp rid cs = true -> tmp_inj tmp -> bond_ok (max_bond p) ->
+  (forall c, spectra c <> [] /\ descending (spectra c)) ->
+  recursive_truncation tmp (fun c => length (fst (select p (spectra c)))) rid cs = Some cs' ->
+  forall k nk q, aget k (nodes (fst cs)) = Some nk -> parent nk = Some q ->
+    1 <= bond_dim (fst cs') k <= length (spectra k) /\
+    forall m, max_bond p = BFin m -> bond_dim (fst cs') k <= m.
+Proof. exact rec_bonds_select. Qed.
+Print Assumptions C10_rec_bonds_select.
+
+(* the recursion below one node: parents unchanged; the bond above every proper descendant of n gets the
+   supplied dimension; every other bond (and node) keeps its view *)
+Theorem C10_truncate_node_effect : forall (tmp : tmpids) (kd : id -> nat), tmp_inj tmp ->
+  forall (f : nat) (s : store) (n : id) (s' : store), wf s -> tmp_fresh tmp s ->
+  truncate_node f tmp kd s n = Some s' ->
+  wf s' /\ root s' = root s /\ (forall k, pmap s' k = pmap s k) /\
+  forall k, (desc (pmap s) n k /\ exists q, view s' k = Some (Some q, kd k)) \/
+            (~ desc (pmap s) n k /\ view s' k = view s k).
+Proof. exact truncate_node_spec. Qed.
+Print Assumptions C10_truncate_node_effect.
+
+(* (c) every (child, parent) bond is truncated exactly once: truncate_node_tr is truncate_node with the list
+   of bonds (child identifiers) in the order their projector is computed; started at the root the list has no
+   repetition and contains exactly the nodes that have a parent *)
+Theorem C10_rec_trace_erase : forall f tmp kd s n,
+  option_map fst (truncate_node_tr f tmp kd s n) = truncate_node f tmp kd s n.
+Proof. exact rec_trace_erase. Qed.
+Print Assumptions C10_rec_trace_erase.
+
+Theorem C10_rec_trace_coverage : forall (tmp : tmpids) (kd : id -> nat) (f : nat) (s : store) (r : id) (s' : store) (tr : list id),
+  wfb s = true -> tmp_fresh tmp s -> tmp_inj tmp -> root s = Some r ->
+  truncate_node_tr f tmp kd s r = Some (s', tr) ->
+  NoDup tr /\ forall k, In k tr <-> exists nk q, aget k (nodes s) = Some nk /\ parent nk = Some q.
+Proof. exact rec_trace_coverage. Qed.
+Print Assumptions C10_rec_trace_coverage.
+
+(* the fuel `number of nodes` of truncate_node suffices: more fuel never changes the result *)
+Theorem C10_rec_fuel : forall (tmp : tmpids) (kd : id -> nat) (s : store) (r : id) (f : nat),
+  wfb s = true -> tmp_fresh tmp s -> tmp_inj tmp -> root s = Some r ->
+  length (nodes s) <= f -> truncate_node f tmp kd s r = truncate_node (length (nodes s)) tmp kd s r.
+Proof. exact rec_fuel. Qed.
+Print Assumptions C10_rec_fuel.
+
+(* svd_truncation: invariant, identifiers, parents, children sets and root preserved, temporary gone; the
+   recorded centre is the parent of the last node handled *)
+Theorem C10_svd_structure : forall (kd : id -> nat) (rid : id) (cs cs' : cstore),
+  wfb (fst cs) = true -> amem rid (nodes (fst cs)) = false -> svd_truncation kd rid cs = Some cs' ->
+  wfb (fst cs') = true /\ amem rid (nodes (fst cs')) = false /\
+  same_tree (nodes (fst cs)) (nodes (fst cs')) /\ root (fst cs') = root (fst cs) /\
+  match last_opt (removelast (linearise (fst cs))) with
+  | None => cs' = cs
+  | Some n => exists nk p, aget n (nodes (fst cs)) = Some nk /\ parent nk = Some p /\ snd cs' = Some p
+  end.
+Proof. exact svd_structure. Qed.
+Print Assumptions C10_svd_structure.
+
+(* one contract_and_split_with_parent: the bond above the node gets exactly the supplied dimension, the parent
+   becomes the recorded centre, every other node keeps its parent and its bond dimension *)
+Theorem C10_svd_step_bond : forall (kd : id -> nat) (rid : id) (cs : cstore) (n : id) (cs' : cstore),
+  wfb (fst cs) = true -> amem rid (nodes (fst cs)) = false -> contract_and_split kd rid cs n = Some cs' ->
+  wfb (fst cs') = true /\ root (fst cs') = root (fst cs) /\
+  (exists nk p, aget n (nodes (fst cs)) = Some nk /\ parent nk = Some p /\ snd cs' = Some p /\
+                view (fst cs') n = Some (Some p, kd n)) /\
+  bond_dim (fst cs') n = kd n /\
+  forall k, k <> n -> view (fst cs') k = view (fst cs) k.
+Proof. exact svd_step_bond. Qed.
+Print Assumptions C10_svd_step_bond.
+
+(* (c) for svd_truncation: the path update_path[:-1] contains every node that has a parent exactly once *)
+Theorem C10_svd_path_coverage : forall (s : store) (r : id), wfb s = true -> root s = Some r ->
+  exists T, linearise s = T ++ [r] /\ removelast (linearise s) = T /\ NoDup T /\
+            forall k, In k T <-> exists nk q, aget k (nodes s) = Some nk /\ parent nk = Some q.
+Proof. exact svd_path_coverage. Qed.
+Print Assumptions C10_svd_path_coverage.
+
+(* non-vacuity: a four-node tree with shuffled legs; both routines succeed, the hypotheses hold, the bonds get
+   the supplied dimensions, the trace and the path are the bonds in the two orders *)
+Definition C10_ex_tmp : tmpids := fun j c n => 2000 + 3 * (16 * c + n) + j.
+Definition C10_ex_cs : cstore :=
+  crun 99 (empty_store, None)
+    [Base (AddRoot 0 [2; 3; 2]); Base (AddChild 1 [2; 2; 3] 1 0 0); Base (AddChild 2 [3; 2] 0 0 1);
+     Base (AddChild 3 [3; 2] 0 1 2)].
+Example C10_example_tree :
+  trunc_hyps C10_ex_tmp 99 C10_ex_cs = true /\
+  match recursive_truncation C10_ex_tmp (dget [(1, 1); (2, 2); (3, 2)]) 99 C10_ex_cs with
+  | Some cs' => map (bond_dim (fst cs')) [1; 2; 3] = [1; 2; 2] /\ snd cs' = Some 0
+  | None => False
+  end /\
+  match svd_truncation (dget [(1, 1); (2, 2); (3, 2)]) 99 (crun 99 C10_ex_cs [Canon 2 Reduced]) with
+  | Some cs' => map (bond_dim (fst cs')) [1; 2; 3] = [1; 2; 2] /\ snd cs' = Some 0
+  | None => False
+  end /\
+  option_map snd (truncate_node_tr 4 C10_ex_tmp (dget [(1, 1); (2, 2); (3, 2)]) (fst C10_ex_cs) 0) = Some [1; 2; 3] /\
+  linearise (fst C10_ex_cs) = [3; 1; 2; 0].
+Proof. vm_compute. repeat split; reflexivity. Qed.
+Print Assumptions C10_example_tree.
+
+Example C10_example_tmp_inj : tmp_inj C10_ex_tmp.
+Proof. exact harness_tmp_inj. Qed.
+Print Assumptions C10_example_tmp_inj.
